@@ -60,16 +60,16 @@ type Conn struct {
 	srv *Server
 	mu  sync.Mutex
 
-	seq        int
-	Log        []Event
-	KeepLog    bool
-	faults     map[int]bool // primitive sequence numbers that fail
-	FaultsHit  int
-	FaultKinds []string
-	Unmodelled []string
-	txs        []*Tx
-	Closed     bool
-	UseAfterEnd int // statements issued on a finished transaction
+	seq          int
+	Log          []Event
+	KeepLog      bool
+	faults       map[int]bool // primitive sequence numbers that fail
+	FaultsHit    int
+	FaultKinds   []string
+	Unmodelled   []string
+	txs          []*Tx
+	Closed       bool
+	UseAfterEnd  int // statements issued on a finished transaction
 	RedundantEnd int // commit/rollback on an already finished transaction (harmless in pgx; counted)
 }
 
@@ -361,7 +361,10 @@ func (t *Tx) SendBatch(ctx context.Context, b *pgx.Batch) pgx.BatchResults {
 	t.unmodelled("Tx.SendBatch")
 	return nil
 }
-func (t *Tx) LargeObjects() pgx.LargeObjects { t.unmodelled("Tx.LargeObjects"); return pgx.LargeObjects{} }
+func (t *Tx) LargeObjects() pgx.LargeObjects {
+	t.unmodelled("Tx.LargeObjects")
+	return pgx.LargeObjects{}
+}
 func (t *Tx) Prepare(ctx context.Context, name, sql string) (*pgconn.StatementDescription, error) {
 	t.unmodelled("Tx.Prepare")
 	return nil, errors.New("pgfake: unmodelled")
